@@ -172,3 +172,14 @@ def compare_parts(node):
     if isinstance(node, ast.Compare) and len(node.ops) == 1:
         return node.left, type(node.ops[0]), node.comparators[0]
     return None
+
+
+def before(src, *parts):
+    """all parts occur in src in this order (first occurrences); False if any is missing"""
+    pos = -1
+    for p in parts:
+        i = src.find(p)
+        if i < 0 or i < pos:
+            return False
+        pos = i
+    return True
